@@ -479,7 +479,11 @@ seq_t dtw_warping_paths{{ suffix }}{{ suffix2 }}(seq_t *wps,
         rvalue = -1;
     }
 
+    {%- if "euclidean" == inner_dist or "affinity" in suffix %}
     if (settings->max_dist > 0 && rvalue > settings->max_dist) {
+    {%- else %}
+    if (settings->max_dist > 0 && rvalue > pow(settings->max_dist, 2)) {
+    {%- endif %}
         // DTWPruned keeps the last value larger than max_dist. Correct for this.
         rvalue = {{infinity}};
     }
